@@ -36,7 +36,7 @@ func c13Env() map[string]any {
 		"n": 5, "k": 2, "f": 1.5, "s": "str", "e": "", "t": true, "b": false, "ns": "42",
 		"sp1": "a b", "sp2": "a  b", "up": "A  b",
 		// variables whose names strconv would take for a boolean or a float
-		"T": 2, "nan": 4, "F": "eff", "zp": "010", "zip": "08540", "eq3": "a===b", "ne3": "a!==b", "amp2": "a && b", "q3": "a ? b : c",
+		"T": 2, "nan": 4, "F": "eff", "big": 300, "minus": -1, "zp": "010", "zip": "08540", "eq3": "a===b", "ne3": "a!==b", "amp2": "a && b", "q3": "a ? b : c",
 		"m":  map[string]any{"k": "mk", "l": []any{"x", "y"}, "n": 7},
 		"l":  []int{10, 20},
 		"st": c13Struct{Field: "SF", Num: 3},
@@ -306,6 +306,8 @@ var c13Positions = []string{"mustache", "bind", "vif", "velseif", "vshow"}
 func c13Funcs() vuego.FuncMap {
 	return vuego.FuncMap{
 		"double":  func(v int) int { return v * 2 },
+		"small":   func(v int8) int { return int(v) },
+		"natural": func(v uint) int { return int(v) },
 		"half":    func(v float64) float64 { return v / 2 },
 		"shout":   func(s string) string { return strings.ToUpper(s) + "!" },
 		"neg":     func(b bool) bool { return !b },
@@ -557,6 +559,8 @@ func c13Stages() []c13Stage {
 			return v, true
 		}},
 		{"double", func(v c13V) (c13V, bool) { i, ok := num(v); return c13V{T: "int", I: i * 2}, ok }},
+		{"small", func(v c13V) (c13V, bool) { i, ok := num(v); return c13V{T: "int", I: i}, ok && i >= -128 && i <= 127 }},
+		{"natural", func(v c13V) (c13V, bool) { i, ok := num(v); return c13V{T: "int", I: i}, ok && i >= 0 }},
 		{"addn(3)", func(v c13V) (c13V, bool) { i, ok := num(v); return c13V{T: "int", I: i + 3}, ok }},
 		{"addn(k)", func(v c13V) (c13V, bool) { i, ok := num(v); return c13V{T: "int", I: i + 2}, ok }},
 		{"addn(T)", func(v c13V) (c13V, bool) { i, ok := num(v); return c13V{T: "int", I: i + 2}, ok }},
@@ -707,6 +711,9 @@ func init() {
 				{"n | addn", "wrong-arity", "addn"}, {"n | addn(1, 2)", "wrong-arity", "addn"}, {"s | double", "impossible-conversion", "double"},
 				{"l | double", "impossible-conversion", "double"}, {"s | fail", "function-error", "fail"}, {"s | upper | fail | lower", "function-error", "fail"},
 				{"m | shout", "impossible-conversion", "shout"},
+				// a number that does not fit the parameter type cannot be converted either
+				{"big | small", "impossible-conversion", "small"}, {`"300" | small`, "impossible-conversion", "small"}, {"small(big)", "impossible-conversion-call", "small"},
+				{"minus | natural", "impossible-conversion", "natural"}, {`"-1" | natural`, "impossible-conversion", "natural"},
 			} {
 				emit(&c13Case{Part: "error", Expr: e.expr, Shape: e.shape, Fn: e.fn})
 			}
